@@ -1,8 +1,47 @@
-(* C05: placeholder until the Reflect proofs are merged; a concrete run of the model. *)
-From BCL Require Import Model.Reflect.
-Example C05_example :
-  bind (TgtPtr (TStruct [] [Field (bs "Name") true false [] TString; Field (bs "Port") true false [] TInt]) GZero)
-       (BdStruct (VBlock (bs "t") (bs "n") [(bs "port", VInt 5)]))
-  = BOk (GPtrTo (GStruct [GVal (VStr (bs "n")); GVal (VInt 5)])).
-Proof. vm_compute. reflexivity. Qed.
-Print Assumptions C05_example.
+(* C05: Unmarshal reproduces configuration values in Go structs.
+
+   C05_bind_roundtrip: for every struct type of the supported family (`fam d`: exported, non-embedded,
+   untagged fields of scalar or nested-struct type whose names are pairwise distinct after folding case and
+   underscores; nesting depth d <= 64) and every value v of that type, binding the blocks that spell v
+   (`blocks_of`: lower-cased field names as keys, nested structs as nested blocks, a field folding to "name"
+   as the block name) into a zero target yields exactly v.  The remaining links of the chain -- writing the
+   blocks as BCL text, lexing, parsing, executing and `bind` selecting the block -- are exercised end to end
+   by the harness (render -> Unmarshal -> DeepEqual, with tags, all admitted spellings of keys and slice
+   targets), with the model's Bind as the oracle for rejected shapes; the key-matching rule (tag first,
+   then case/underscore folding) is Model/Reflect.find_field, compared with the real matcher on every case. *)
+From Coq Require Import List Lia.
+From BCL Require Import Model.Reflect Proofs.ReflectProofs.
+Open Scope N_scope.
+
+Theorem C05_bind_roundtrip : forall d tn fs l bt,
+  fam d (TStruct tn fs) -> (d <= 64)%nat -> inhabits (TStruct tn fs) (GStruct l) ->
+  (tn = [] \/ unsnake_eq tn bt = true) ->
+  bind (TgtPtr (TStruct tn fs) GZero) (BdStruct (blocks_of (TStruct tn fs) (GStruct l) bt))
+    = BOk (GPtrTo (GStruct l)).
+Proof. first [exact ReflectProofs.C05_bind_roundtrip | apply ReflectProofs.C05_bind_roundtrip]. Qed.
+Print Assumptions C05_bind_roundtrip.
+
+(* slice target: length and order of the bound blocks, element i from block i *)
+Theorem C05_slice_order_and_length : forall et v0 blks,
+  Forall (fun v => (bdepth v <= 64)%nat) blks ->
+  (exists e, bind (TgtPtr (TSlice et) v0) (BdSlice blks) = BErr e) \/
+  (exists n efs l, et = TStruct n efs /\
+     bind (TgtPtr (TSlice et) v0) (BdSlice blks) = BOk (GPtrTo (GSlice l)) /\
+     Forall2 (fun blk e => copy_block 64 sorted_fields et (zero_struct efs) blk = BOk e) blks l).
+Proof. first [exact ReflectProofs.C15_slice_atomic_total | apply ReflectProofs.C15_slice_atomic_total]. Qed.
+Print Assumptions C05_slice_order_and_length.
+
+(* previous elements are discarded *)
+Theorem C05_slice_discards_old : forall et v0 v1 blks,
+  bind (TgtPtr (TSlice et) v0) (BdSlice blks) = bind (TgtPtr (TSlice et) v1) (BdSlice blks).
+Proof. first [exact ReflectProofs.C15_slice_discards_old | apply ReflectProofs.C15_slice_discards_old]. Qed.
+Print Assumptions C05_slice_discards_old.
+
+(* the outcome does not depend on the order in which the fields are stored in the block *)
+Theorem C05_key_order_irrelevant : forall tg b1 b2, veq b1 b2 -> bind tg (BdStruct b1) = bind tg (BdStruct b2).
+Proof. first [exact ReflectProofs.C16_bind_order_deep | apply ReflectProofs.C16_bind_order_deep]. Qed.
+Print Assumptions C05_key_order_irrelevant.
+
+(* non-vacuity: an ordinary member of the family and a value of it *)
+Example C05_example_holds : fam 2 c05_type /\ inhabits c05_type c05_val.
+Proof. split; [exact c05_type_fam | exact c05_val_inhabits]. Qed.
